@@ -60,15 +60,16 @@ Section Bins.
     match b with [] => [] | (_, up) :: r => (x, up) :: r end.
 
   (* WD_mask = bins_MS.lower <= WD_mf.upper; bins_WD.upper[-1] = WD_mf.upper *)
+  (* (since /repo fix 8cb9ba6 an empty selection is left empty instead of raising IndexError) *)
   Definition carve_WD (ms : bins) (wd_up : T) : res bins :=
     match filter (fun p => fst p <=? wd_up) ms with
-    | [] => Err IndexError
+    | [] => Ok []
     | l => Ok (set_last_upper l wd_up)
     end.
   (* BH_mask = bins_MS.upper > BH_mf.lower; bins_BH.lower[0] = BH_mf.lower *)
   Definition carve_BH (ms : bins) (bh_lo : T) : res bins :=
     match filter (fun p => bh_lo <? snd p) ms with
-    | [] => Err IndexError
+    | [] => Ok []
     | l => Ok (set_first_lower l bh_lo)
     end.
   (* NS_mask = (bins_MS.lower < 1.4) & (1.4 < bins_MS.upper); c14 is the literal 1.4 *)
